@@ -22,7 +22,7 @@ type FileSpec struct {
 	// import spellings
 	CtxAlias string `json:"ctxalias,omitempty"` // alias for "context" ("" = plain)
 	CffAlias string `json:"cffalias,omitempty"` // alias for go.uber.org/cff
-	Layout   int    `json:"layout,omitempty"`   // bit 0: CRLF line endings, bit 1: no newline at the end of the file, bit 2: //go:generate and a doc comment between the constraint and the package clause, bit 3: no blank line between a //go:build line and the package clause, bit 4: //line directives around the package clause (the file comes from a preprocessor), bit 5: the file starts with a UTF-8 byte order mark, bit 6: a line comment containing "/*" above the constraint
+	Layout   int    `json:"layout,omitempty"`   // bit 0: CRLF line endings, bit 1: no newline at the end of the file, bit 2: //go:generate and a doc comment between the constraint and the package clause, bit 3: no blank line between a //go:build line and the package clause, bit 4: //line directives around the package clause (the file comes from a preprocessor), bit 5: the file starts with a UTF-8 byte order mark, bit 6: a line comment containing "/*" above the constraint, bit 7: a //line directive naming a file in another directory before every function (E-GEN C17 only)
 	OddImp   int    `json:"oddimp,omitempty"`   // 1: imports vcase/odd/v2 (package odd), 2: math/rand/v2 (package rand), 3: vcase/twin/v3 (package debug), all without an explicit name
 	TimeImp  string `json:"timeimp,omitempty"`  // "", "plain" (imports time), "alias" (tm "time"), "collide" (another package imported as time)
 }
@@ -378,6 +378,11 @@ func (pr *progRender) render() string {
 		switch {
 		case strings.HasPrefix(s.Conc, "const:"):
 			k := strings.TrimPrefix(s.Conc, "const:")
+			if s.Shadow {
+				// the limit is a CONSTANT named like a variable the generated code
+				// declares before it creates the scheduler (declared below)
+				k = constShadowName
+			}
 			opts = append(opts, func() string { return n.cff + ".Concurrency(" + pr.wrap(k) + ")" })
 		case s.Conc == "expr":
 			opts = append(opts, func() string { return n.cff + ".Concurrency(" + pr.wrap("env.ConcN()") + ")" })
@@ -735,6 +740,10 @@ func (pr *progRender) render() string {
 	}
 	if s.Shadow {
 		for _, nm := range shadowNames {
+			if nm == constShadowName && strings.HasPrefix(s.Conc, "const:") {
+				x.f("const %s = %s", nm, strings.TrimPrefix(s.Conc, "const:"))
+				continue
+			}
 			x.f("%s := env", nm)
 			x.f("_ = %s", nm)
 		}
@@ -832,6 +841,10 @@ func permFor(order []int, n, salt int) []int {
 var shadowNames = []string{"sched", "emitter", "tasks", "task0", "v1", "flowInfo", "startTime", "schedInfo", "val", "idx", "key",
 	"flowEmitter", "parallelEmitter", "taskEmitter", "pred1", "p0", "recovered", "schedEmitter", "directiveInfo", "parallelInfo", "sliceTask0Slice", "mapTask0Jobs"}
 
+// constShadowName is the shadow name that a directive with a constant
+// concurrency limit declares as a constant holding that limit.
+const constShadowName = "schedInfo"
+
 var reEnv = regexp.MustCompile(`\benv\b`)
 
 // shadowFor picks the k-th shadow name, skipping names the text already uses
@@ -839,6 +852,9 @@ var reEnv = regexp.MustCompile(`\benv\b`)
 func shadowFor(text string, k int) string {
 	for d := 0; d < len(shadowNames); d++ {
 		n := shadowNames[(k+d)%len(shadowNames)]
+		if n == constShadowName {
+			continue // may be declared as a constant (the concurrency limit), never stands for env
+		}
 		if !regexp.MustCompile(`\b` + n + `\b`).MatchString(text) {
 			return n
 		}
@@ -988,6 +1004,12 @@ func RenderFileAs(f *FileSpec, pkgAuto bool, regSuffix string) (src, side string
 			d := decorPool[(f.Decor+i)%len(decorPool)]
 			x.sb.WriteString(fmt.Sprintf(d, f.Idx*100+i))
 			x.sb.WriteString("\n")
+		}
+		if f.Layout&128 != 0 {
+			// the function was expanded from a template in another directory
+			// (E-GEN C17 only: positions, hence diagnostics and implied
+			// instrumentation names, then refer to that file)
+			x.f("//line tmpl/%s.tmpl:%d", strings.TrimSuffix(f.Name, ".go"), 7+i)
 		}
 		x.sb.WriteString(b)
 		x.sb.WriteString("\n")
